@@ -420,6 +420,11 @@ func (w *World) lenBoundD(v ssa.Value, at ssa.Instruction, d int) (lo, hi int64,
 		return arr.Len(), arr.Len(), true
 	}
 	switch x := v.(type) {
+	case *ssa.Parameter:
+		// slice parameter of a callee being summarised for one call site: the argument's length
+		if iv, okE := w.lenParamEnv[x]; okE {
+			lo, hi, ok = iv[0], iv[1], true
+		}
 	case *ssa.Const:
 		if s, isS := constString(x.Value); isS {
 			return int64(len(s)), int64(len(s)), true
@@ -466,6 +471,20 @@ func (w *World) lenBoundD(v ssa.Value, at ssa.Instruction, d int) (lo, hi int64,
 		// flat buffer idiom or merge
 		return w.phiLenBound(x, at, d)
 	case *ssa.Call:
+		if x.Call.IsInvoke() && x.Call.Method.Name() == "ComputeHash" {
+			// assumption A-Hasher: ComputeHash returns Size() bytes
+			hv := render(x.Call.Value)
+			for _, f := range w.factsAt(at) {
+				if strings.HasPrefix(f.Expr, hv+".Size() == ") {
+					if k, isK := parseInt(strings.TrimPrefix(f.Expr, hv+".Size() == ")); isK {
+						return k, k, true
+					}
+				}
+			}
+			if k, isK := w.globalHasherSize(x.Call.Value, 0); isK {
+				return k, k, true
+			}
+		}
 		if b, isB := x.Call.Value.(*ssa.Builtin); isB && b.Name() == "append" {
 			bl, bh, bk := w.lenBoundD(x.Call.Args[0], x, d+1)
 			cl, ch, ck := w.lenBoundD(x.Call.Args[1], x, d+1)
@@ -769,9 +788,29 @@ func (w *World) resultLenSummary(fn *ssa.Function, idx int, call *ssa.CallCommon
 			}
 		}
 	}
+	if w.lenParamEnv == nil {
+		w.lenParamEnv = map[*ssa.Parameter][2]int64{}
+	}
+	var lbound []*ssa.Parameter
+	for i, p := range fn.Params {
+		if i < len(call.Args) {
+			switch p.Type().Underlying().(type) {
+			case *types.Slice:
+				if l, h, k := w.lenBoundD(call.Args[i], at, d+1); k {
+					if _, exists := w.lenParamEnv[p]; !exists {
+						w.lenParamEnv[p] = [2]int64{l, h}
+						lbound = append(lbound, p)
+					}
+				}
+			}
+		}
+	}
 	defer func() {
 		for _, p := range bound {
 			delete(w.paramEnv, p)
+		}
+		for _, p := range lbound {
+			delete(w.lenParamEnv, p)
 		}
 	}()
 	var jl, jh int64 = inf, -inf
@@ -1110,4 +1149,66 @@ func replaceIdent(s, name, with string) string {
 
 func isIdentChar(c byte) bool {
 	return c == '_' || c >= '0' && c <= '9' || c >= 'a' && c <= 'z' || c >= 'A' && c <= 'Z' || c >= 0x80
+}
+
+// globalHasherSize: output size of a package-level hasher that is initialised once, by a chain of
+// module constructors ending in hash.NewKMAC_128(_, _, K) with constant K (KMAC returns make(K)).
+func (w *World) globalHasherSize(v ssa.Value, d int) (int64, bool) {
+	if d > 4 {
+		return 0, false
+	}
+	v = stripConv(v)
+	switch x := v.(type) {
+	case *ssa.UnOp:
+		if g, ok := x.X.(*ssa.Global); ok && x.Op == token.MUL && g.Pkg != nil && inModule(g.Pkg.Func("init")) {
+			var val ssa.Value
+			n := 0
+			for _, f := range w.moduleFuncs() {
+				instrsFlat(f, func(ins ssa.Instruction) {
+					if st, ok := ins.(*ssa.Store); ok && st.Addr == ssa.Value(g) {
+						n++
+						val = st.Val
+						if !(f.Name() == "init" || strings.HasPrefix(f.Name(), "init#")) {
+							n += 10
+						}
+					}
+				})
+			}
+			if n == 1 {
+				return w.globalHasherSize(val, d+1)
+			}
+		}
+	case *ssa.Extract:
+		if c, ok := x.Tuple.(*ssa.Call); ok && x.Index == 0 {
+			return w.globalHasherSize(c, d+1)
+		}
+	case *ssa.Call:
+		f := x.Call.StaticCallee()
+		if f == nil {
+			return 0, false
+		}
+		if f.String() == hashPath+".NewKMAC_128" && len(x.Call.Args) == 3 {
+			if l, h, k := w.intBoundD(x.Call.Args[2], x, d+1); k && l == h {
+				return l, true
+			}
+			return 0, false
+		}
+		if inModule(f) && f.Blocks != nil {
+			var out int64 = -1
+			for _, r := range returnsD(f, 99) {
+				if len(r.Results) == 0 {
+					return 0, false
+				}
+				k, ok := w.globalHasherSize(r.Results[0], d+1)
+				if !ok || out >= 0 && out != k {
+					return 0, false
+				}
+				out = k
+			}
+			if out >= 0 {
+				return out, true
+			}
+		}
+	}
+	return 0, false
 }
